@@ -29,34 +29,23 @@ READERS = {"metadata_read": None, "mtbl_fixed_decode32": None, "mtbl_fixed_decod
 
 
 def varint_bound(prog):
-    """Maximum number of bytes _varint_decode touches, derived from its loop, per max_shift."""
-    f = prog.need("_varint_decode", "mtbl/varint.c")
-    loops = [n for n in walk(f.body) if n["k"] == "ForStmt"]
-    if len(loops) != 1:
-        raise BrokenAnalysis("_varint_decode: loop shape not recognised")
-    L = loops[0]
-    cond = strip(L["cond"])
-    inc = strip(L["inc"])
-    ini = strip(L["init"]) if L.get("init") else None
-    ok = cond["k"] == "BinaryOperator" and cond["op"] == "<" and canon(cond["kids"][1]) == f.params[2]["name"] and \
-        inc["k"] == "CompoundAssignOperator" and inc["op"] == "+=" and canon(inc["kids"][0]) == canon(cond["kids"][0]) and \
-        const_val(inc["kids"][1]) is not None and ini is not None and ini["k"] == "BinaryOperator" and const_val(ini["kids"][1]) == 0
-    if not ok:
-        raise BrokenAnalysis("_varint_decode: loop bound not recognised")
-    step = const_val(inc["kids"][1])
-    # one byte per iteration: data[len] read, len advanced once
-    incs = [n for n in walk(L["body"]) if n["k"] == "UnaryOperator" and n.get("op") == "++" and canon(n["kids"][0]) == "len"]
-    idx = [n for n in walk(L["body"]) if n["k"] == "ArraySubscriptExpr" and canon(n["kids"][0]) == f.params[0]["name"]]
-    if len(incs) != 1 or any(canon(strip(n["kids"][1])).rstrip("+") != "len" for n in idx):
-        raise BrokenAnalysis("_varint_decode: per-iteration byte accounting not recognised")
+    """Maximum number of bytes each varint decoder touches, for every input: the largest offset any trace of the
+    bit-provenance interpretation (mtblcheck/bits.py, as in C16.R3) reads from the input buffer, plus one.  Independent of how
+    the decoder's loop is written."""
+    from mtblcheck import bits as B
     out = {}
     for nm in ("mtbl_varint_decode64", "mtbl_varint_decode32"):
         g = prog.need(nm, "mtbl/varint.c")
-        c = g.calls("_varint_decode")
-        if len(c) != 1 or const_val(call_args(c[0])[2]) is None:
-            raise BrokenAnalysis("%s: max_shift not constant" % nm)
-        ms = const_val(call_args(c[0])[2])
-        out[nm] = (ms + step - 1) // step
+        I = B.Interp(prog, g.unit)
+        traces = I.run(g)
+        if not traces:
+            raise BrokenAnalysis("%s: no trace" % nm)
+        mx = 0
+        for r in traces:
+            for (base, off) in r.st.reads:
+                if base == ("p", 0):
+                    mx = max(mx, off + 1)
+        out[nm] = mx
     return out
 
 
@@ -71,7 +60,7 @@ def run(ctx, res):
     vb = varint_bound(prog)
     want = {r["what"].split()[-1]: r["bound"] for r in T["bounded_not_tainted"]}
     res.check(vb.get("mtbl_varint_decode64") == 10 and vb.get("mtbl_varint_decode32") == 5, "C19.R1", "_varint_decode:bound",
-              "encoded length bounded by %s bytes (derived from the loop: shift < max_shift step 7)" % vb,
+              "encoded length bounded by %s bytes (largest offset read on any trace of the bit-provenance interpretation)" % vb,
               "varint decoder may touch %s bytes, the extent table assumes 10 / 5" % vb)
     f = prog.need("mtbl_reader_init_fd", U)
     res.saw(f)
